@@ -234,6 +234,37 @@ def run(chk):
                 chk.sample(dict(abstract=spec[7][0], placement=spec[7][1]))
     chk.part('hosts', hosts=nhosts, within_or_on_a_slice=nontriv)
     chk.add_cases(nhosts, nontrivial=nontriv, traces=nhosts)
+    # ---- redshift-space coordinates that land EXACTLY on the box faces: z' = +L/2 wraps to -L/2 (the interval is half open), z' = -L/2 stays
+    try:
+        rng3 = np.random.default_rng(chk.seed + 4)
+        nE = 60
+        HE = hc.make_halos(rng3, nE)
+        HE['hmass'][:] = 10 ** 14.4
+        HE['hrandoms'][:] = rng3.random(nE) * 0.01                 # every halo hosts an LRG central
+        HE['hveldev'][:] = 0.0
+        kk = rng3.integers(1, 9, nE).astype(np.float64)
+        sign = np.where(np.arange(nE) % 3 == 0, -1.0, 1.0)
+        HE['hvel'][:, 2] = sign * kk * hc.VELZ2KMS                  # v_z / velz2kms = +-k exactly (velz2kms = 75)
+        HE['hpos'][:, 2] = sign * (hc.LBOX / 2 - kk)                # z + v_z / velz2kms = +-L/2 exactly
+        HE['hpos'][::7, 2] += 0.25                                  # and a few just inside / beyond
+        PE = hc.make_particles(rng3, HE, 0)
+        oE = hc.run_hod(HE, PE, {'LRG': dict(hc.LRG, ic=1.0)}, Nthread=3, rsd=True)
+        g = oE['LRG']
+        nc = int(g['Ncent'])
+        zz = np.asarray(g['z'])[:nc]
+        cidx = np.asarray(g['id'])[:nc] - 100000
+        epos, evel = hc.expected_fields(HE['hpos'][cidx], HE['hvel'][cidx], HE['hveldev'][cidx], hc.LRG['alpha_c'], True, None)
+        if nc < nE // 2:
+            chk.note('C09 box-face cases: fewer centrals than expected were generated')
+        if np.any(zz < -hc.LBOX / 2) or np.any(zz >= hc.LBOX / 2):
+            j = int(np.argmax((zz < -hc.LBOX / 2) | (zz >= hc.LBOX / 2)))
+            chk.violation('rsd-wrap-box-face', f'RSD with a box observer: a central whose redshift-space z is exactly {float(HE["hpos"][cidx[j], 2] + HE["hvel"][cidx[j], 2] / hc.VELZ2KMS)!r} '
+                          f'comes out at z = {float(zz[j])!r}, outside [-L/2, L/2) = [{-hc.LBOX / 2}, {hc.LBOX / 2})', dict(kind='box-face'))
+        elif not np.allclose(zz, epos[:, 2], rtol=0, atol=1e-9):
+            chk.violation('rsd-wrap-box-face-value', 'RSD with a box observer: centrals landing on the box faces differ from the wrapped formula', dict(kind='box-face'))
+        chk.add_cases(nE, traces=nE)
+    except Exception as e:  # noqa
+        chk.violation(f'box-face-raises-{type(e).__name__}', f'box-face RSD cases: {type(e).__name__}: {e}', {})
     # ---- the catalogue is a function of the parameters of THIS call: a parameter dict reused for a second call with changed values
     #      (optional keys left to their defaults) gives what a fresh dict with the same values gives, and is not modified
     try:
